@@ -89,13 +89,13 @@ def r32_requests(errors, g, text):
     return want
 
 
-def run_unit(unit_name, extra_args=(), keep=True, inject=None, inject_false=None, tag='', extra_consts=None, inline=None, r32_round=0):
+def run_unit(unit_name, extra_args=(), keep=True, inject=None, inject_false=None, tag='', extra_consts=None, inline=None, r32_round=0, skip_hints=None):
     """Returns a result dict.  inject: optional function(text)->text used by the vacuity self-test."""
     t0 = time.time()
     res = {'unit': unit_name, 'status': 'ok', 'undecided': [], 'obligations': [], 'errors': [],
            'wall_s': 0.0, 'solver_ms': {}, 'functions': [], 'dropped': [], 'trusted': [], 'cmd': ''}
     try:
-        u, g, text = gen.generate(unit_name, inject_false=inject_false, extra_consts=extra_consts, inline=inline)
+        u, g, text = gen.generate(unit_name, inject_false=inject_false, extra_consts=extra_consts, inline=inline, skip_hints=skip_hints)
     except gen.SpecError as e:
         res['status'] = 'undecided'; res['hard_fail'] = True
         res['undecided'].append(str(e))
@@ -140,6 +140,23 @@ def run_unit(unit_name, extra_args=(), keep=True, inject=None, inject_false=None
             if d.get('$message_type') == 'diagnostic':
                 diags.append(d)
     errors = [d for d in diags if d.get('level') == 'error' and not d['message'].startswith('aborting due to')]
+    # Hint drop: a compile (rustc-level) error whose primary span lies inside a PROOF HINT spliced from the sidecar (@before/@after/@head/
+    # @tail/@loophead/@loopend/@inarm text naming a local the change removed or renamed) says nothing about the code.  The hint is dropped,
+    # its fn degraded (failures there become undecided) and the unit run again, so every other fn of the unit is still decided.  Errors in
+    # contract text (@sig, loop invariants, closure annotations) or in extracted code are not touched.
+    if skip_hints is None:
+        drop = set()
+        rustc = [d for d in errors if (d.get('code') or {}).get('code', '').startswith('E')]
+        for d in rustc:
+            ln = next((sp['line_start'] for sp in d.get('spans', []) if sp.get('is_primary')), None)
+            h = next((h for h in g.hint_lines if ln is not None and h['line0'] <= ln <= h['line1']), None)
+            if h:
+                drop.add((h['region'], h['ann_line']))
+        if drop and len(drop) <= 12:
+            r2 = run_unit(unit_name, extra_args, keep, inject, inject_false, tag, extra_consts=extra_consts, inline=inline, r32_round=r32_round,
+                          skip_hints=sorted(drop))
+            r2.setdefault('dropped_hints', sorted(drop))
+            return r2
     # R31: unknown ALL_CAPS value = a const of the same source file the sidecar does not list yet: extract it too and run again (once)
     if extra_consts is None:
         want = []
@@ -158,7 +175,7 @@ def run_unit(unit_name, extra_args=(), keep=True, inject=None, inject_false=None
                 except Exception:
                     pass
         if want:
-            r2 = run_unit(unit_name, extra_args, keep, inject, inject_false, tag, extra_consts=want, inline=inline, r32_round=r32_round)
+            r2 = run_unit(unit_name, extra_args, keep, inject, inject_false, tag, extra_consts=want, inline=inline, r32_round=r32_round, skip_hints=skip_hints)
             r2.setdefault('auto_consts', want)
             return r2
     # R32: unknown fn/method = a helper of the same source file that a change has split off a contracted fn: inline its body at the
@@ -167,7 +184,7 @@ def run_unit(unit_name, extra_args=(), keep=True, inject=None, inject_false=None
     new = [w for w in r32_requests(errors, g, text) if w not in (inline or [])]
     if new and r32_round < 4:
         try:
-            g2 = gen.generate(unit_name, inject_false=inject_false, extra_consts=extra_consts, inline=(inline or []) + new)[1]
+            g2 = gen.generate(unit_name, inject_false=inject_false, extra_consts=extra_consts, inline=(inline or []) + new, skip_hints=skip_hints)[1]
             grew = sum(1 for x in g2.dropped if x['rule'] == 'R32') > sum(1 for x in g.dropped if x['rule'] == 'R32')
             res['r32_refused'] = g2.r32_refused
         except Exception as e:
@@ -175,7 +192,7 @@ def run_unit(unit_name, extra_args=(), keep=True, inject=None, inject_false=None
             res['r32_refused'] = [f'{type(e).__name__}: {e}']
         if grew:
             r2 = run_unit(unit_name, extra_args, keep, inject, inject_false, tag, extra_consts=extra_consts, inline=(inline or []) + new,
-                          r32_round=r32_round + 1)
+                          r32_round=r32_round + 1, skip_hints=skip_hints)
             if not r2.get('hard_fail'):
                 r2.setdefault('auto_inline', (inline or []) + new)
                 return r2
